@@ -19,6 +19,7 @@ use std::sync::{Arc, Mutex};
 
 use hutil::{Args, Log, Rng, Stats};
 use ractor::thread_local::{ThreadLocalActor, ThreadLocalActorSpawner};
+use ractor::verif::{self, ThreadCtl, ThreadPhase};
 use ractor::{Actor, ActorProcessingErr, ActorRef, SpawnErr, SupervisionEvent};
 use tokio::task::JoinHandle;
 
@@ -156,6 +157,66 @@ struct World {
     spawner: Option<ThreadLocalActorSpawner>,
     release: Option<std::sync::mpsc::Sender<()>>,
     blocker: Option<JoinHandle<()>>,
+    /// a `drain()` running on its own OS thread, parked at its schedule points (`dbegin` / `dstep`)
+    fine: Option<FineDrain>,
+}
+
+/// One `drain()` call executed step by step: the thread is registered with a `ThreadCtl`, so it
+/// parks at `drain.close`, `drain.status`, `marker.load`, `marker.cas`, `marker.enqueue`.
+struct FineDrain {
+    ctl: Arc<ThreadCtl>,
+    result: Arc<Mutex<Option<bool>>>,
+    thread: Option<std::thread::JoinHandle<()>>,
+}
+
+impl FineDrain {
+    fn begin(t: ActorRef<u64>) -> Self {
+        let ctl = ThreadCtl::new();
+        let result: Arc<Mutex<Option<bool>>> = Default::default();
+        let (c2, r2) = (ctl.clone(), result.clone());
+        let thread = std::thread::spawn(move || {
+            verif::thread_register(c2.clone());
+            let r = t.drain().is_ok();
+            verif::thread_unregister();
+            *r2.lock().unwrap() = Some(r);
+            c2.finish();
+        });
+        FineDrain { ctl, result, thread: Some(thread) }
+    }
+    fn wait(&self) -> ThreadPhase {
+        self.ctl
+            .wait_parked_timeout(std::time::Duration::from_secs(20))
+            .expect("drain thread neither parked nor done after 20 s")
+    }
+    fn show(&mut self, ph: ThreadPhase) -> String {
+        match ph {
+            ThreadPhase::AtPoint(p) => format!("at={p}"),
+            ThreadPhase::Done => {
+                if let Some(t) = self.thread.take() {
+                    let _ = t.join();
+                }
+                format!("done={}", if self.result.lock().unwrap().unwrap_or(false) { "ok" } else { "err" })
+            }
+            ThreadPhase::Running => "running".into(),
+        }
+    }
+    /// one model step: the CAS that sets the marker bit and the enqueue of the marker go together
+    fn step(&mut self) -> String {
+        let at_cas = self.ctl.phase() == ThreadPhase::AtPoint("marker.cas");
+        self.ctl.grant();
+        let mut ph = self.wait();
+        if at_cas && ph == ThreadPhase::AtPoint("marker.enqueue") {
+            self.ctl.grant();
+            ph = self.wait();
+        }
+        self.show(ph)
+    }
+    fn finish(&mut self) {
+        self.ctl.release();
+        if let Some(t) = self.thread.take() {
+            let _ = t.join();
+        }
+    }
 }
 
 impl World {
@@ -205,7 +266,7 @@ impl World {
                 };
                 (Some(t), h)
             };
-            return World { shared, outcome, gate, target, start: Some(start), begun: false, sup, next: 0, spawner: Some(spawner), release: Some(tx), blocker: Some(blocker) };
+            return World { shared, outcome, gate, target, start: Some(start), begun: false, sup, next: 0, spawner: Some(spawner), release: Some(tx), blocker: Some(blocker), fine: None };
         }
         let t = Target { shared: shared.clone(), outcome: outcome.clone(), gate: gate.clone() };
         // no yield between this call and the ops that follow: the start task has not been polled
@@ -226,7 +287,7 @@ impl World {
             };
             (Some(r), h)
         };
-        World { shared, outcome, gate, target, start: Some(start), begun: false, sup, next: 0, spawner: None, release: None, blocker: None }
+        World { shared, outcome, gate, target, start: Some(start), begun: false, sup, next: 0, spawner: None, release: None, blocker: None, fine: None }
     }
 
     fn target(&self) -> Option<ActorRef<u64>> {
@@ -304,7 +365,29 @@ impl World {
                 t.kill();
                 "ok".into()
             }
-            (["cast" | "scast" | "drain" | "stop" | "kill"], None) => "noref".into(),
+            // a drain() of its own OS thread, advanced one atomic operation at a time
+            (["dbegin"], Some(t)) => {
+                if self.fine.is_some() {
+                    "dbegin=busy".into()
+                } else {
+                    let mut f = FineDrain::begin(t.clone());
+                    let ph = f.wait();
+                    let r = f.show(ph);
+                    self.fine = Some(f);
+                    r
+                }
+            }
+            (["dstep"], _) => match self.fine.as_mut() {
+                None => "dstep=none".into(),
+                Some(f) => {
+                    let r = f.step();
+                    if r.starts_with("done") {
+                        self.fine = None;
+                    }
+                    r
+                }
+            },
+            (["cast" | "scast" | "drain" | "stop" | "kill" | "dbegin"], None) => "noref".into(),
             (["poll", o], _) => {
                 self.outcome.store(if *o == "ok" { 0 } else { 1 }, Ordering::SeqCst);
                 if let Some(tx) = self.release.take() {
@@ -351,6 +434,7 @@ impl World {
             }
             // pre_start returns
             (["leave", o], _) => {
+                self.begun = true;
                 self.outcome.store(if *o == "ok" { 0 } else { 1 }, Ordering::SeqCst);
                 self.gate.mode.store(0, Ordering::SeqCst);
                 self.gate.open.notify_one();
@@ -365,6 +449,9 @@ impl World {
     }
 
     async fn finish(mut self) {
+        if let Some(mut f) = self.fine.take() {
+            f.finish();
+        }
         let rel = self.release.take();
         if let Some(tx) = &rel {
             let _ = tx.send(());
@@ -477,6 +564,21 @@ fn gen_ops(rng: &mut Rng, st: &mut Stats, ni: bool) -> Vec<String> {
     ops
 }
 
+/// `--fine 1`: one of the case's drains runs on its own OS thread and is advanced one atomic
+/// operation at a time (`dbegin`, then up to 4 `dstep`s) between the other ops of the case —
+/// before the start task is polled, while pre_start is suspended, after the start
+fn add_fine(rng: &mut Rng, st: &mut Stats, ops: &mut Vec<String>, ni: bool) {
+    let lo = if ni { ops.iter().position(|o| o == "enter").map(|i| i + 1).unwrap_or(ops.len()) } else { 0 };
+    let mut pos = rng.range(lo as u64, ops.len() as u64) as usize;
+    ops.insert(pos, "dbegin".to_string());
+    let n = rng.range(1, 4);
+    for _ in 0..n {
+        pos = rng.range(pos as u64 + 1, ops.len() as u64) as usize;
+        ops.insert(pos, "dstep".to_string());
+    }
+    st.bump("case_fine_drain");
+}
+
 async fn replay_ops(log: &mut Log, st: &mut Stats, path: &str) {
     let text = std::fs::read_to_string(path).unwrap_or_default();
     let mut cur: Option<(bool, bool, bool, Vec<String>)> = None;
@@ -544,9 +646,36 @@ async fn main() {
             run_case(&mut log, &mut st, &ops, i % 2 == 0, false, false).await;
             run_case(&mut log, &mut st, &ops, i % 2 == 1, true, false).await;
         }
+        let fine = args.u64("fine", 0) == 1;
+        if fine {
+            // the drain's own steps at every position of the start: close before the start task
+            // is polled / status while pre_start is suspended / marker after the start, etc.
+            let shapes: [&[&str]; 6] = [
+                &["cast", "dbegin", "dstep", "enter", "dstep", "cast", "leave ok", "dstep", "dstep"],
+                &["dbegin", "enter", "dstep", "cast", "dstep", "dstep", "dstep", "leave ok"],
+                &["cast", "dbegin", "dstep", "dstep", "enter", "leave ok", "dstep", "dstep"],
+                &["enter", "cast", "dbegin", "dstep", "dstep", "dstep", "drain", "dstep", "leave ok"],
+                &["enter", "dbegin", "dstep", "leave ok", "cast", "dstep", "dstep", "dstep"],
+                &["dbegin", "dstep", "dstep", "dstep", "poll ok", "dstep"],
+            ];
+            for f in shapes.iter() {
+                let ops: Vec<String> = f.iter().map(|s| s.to_string()).collect();
+                for linked in [false, true] {
+                    for tl in [false, true] {
+                        run_case(&mut log, &mut st, &ops, linked, tl, false).await;
+                        if ops[0] == "enter" {
+                            run_case(&mut log, &mut st, &ops, linked, tl, true).await;
+                        }
+                    }
+                }
+            }
+        }
         for _ in 0..cases {
             let ni = rng.chance(1, 4);
-            let ops = gen_ops(&mut rng, &mut st, ni);
+            let mut ops = gen_ops(&mut rng, &mut st, ni);
+            if fine && rng.chance(2, 3) {
+                add_fine(&mut rng, &mut st, &mut ops, ni);
+            }
             let linked = rng.chance(1, 2);
             let tl = rng.chance(1, 3);
             run_case(&mut log, &mut st, &ops, linked, tl, ni).await;
